@@ -13,8 +13,6 @@ package server
 //@   pure
 //@ extern strings.ContainsAny(s, chars)
 //@   pure
-//@ extern net.SplitHostPort(hostport)
-//@   pure
 //@ extern crypto/sha256.Sum256(data)
 //@   pure
 //@ iface (error).Error(e)
